@@ -18,7 +18,7 @@ from refs import labels_ref, tdc_ref
 ID = "C07"
 LEVEL = "exploration"
 TECHNIQUE = (
-    "Hypothesis-generated datasets x estimators (learning, constant, inverting, memorising, LinearSVC) x label "
+    "Hypothesis-generated datasets x estimators (learning, constant, inverting, memorising with useless or weak generalisation, LinearSVC) x label "
     "encodings x feature direction x format; oracle = independent recomputation of the best-feature and returned-score "
     "acceptance counts with the exact TDC reference, fallback identity, and a direction metamorphic relation on "
     "assign_confidence"
@@ -35,7 +35,7 @@ ASSUMPTIONS = [
     "result-file numeric columns compared with rtol 1e-9 in the direction metamorphic relation",
 ]
 FDRS = (0.0731, 0.1279, 0.2113)
-KINDS = ["good", "const", "invert", "memobad", "svc"]
+KINDS = ["good", "good", "const", "const", "invert", "invert", "memoweak", "memoweak", "memoweak", "svc", "svc", "memobad"]
 
 
 def budget(tier):
@@ -65,7 +65,7 @@ def _case(draw, tier):
         "label_enc": draw(st.sampled_from(["pm1", "01", "bool"])),
         "fmt": draw(st.sampled_from(["tsv", "tsv", "parquet"])),
         "n_noise": draw(st.integers(1, 3)),
-        "fdr": draw(st.sampled_from(FDRS + (0.1279, 0.2113, 0.2113))),
+        "fdr": draw(st.sampled_from((0.1279, 0.2113, 0.2113, 0.31))),
         "sep": draw(st.sampled_from([3.0, 4.0])),
         "twin": draw(st.booleans()),
         "raw_labels": draw(st.booleans()),
@@ -99,6 +99,7 @@ def _make_model(case):
         "const": recorder.Const(log="c07"),
         "invert": recorder.Invert(log="c07", w=case["sign"], eps=0.0),
         "memobad": recorder.Memo(log="c07", feat=1),
+        "memoweak": recorder.MemoWeak(log="c07", w=case["sign"]),
     }[k]
     return mokapot.Model(est, scaler=recorder.RecScaler(identity=True), train_fdr=thr, max_iter=2, override=case["override"])
 
@@ -165,6 +166,8 @@ def check(case):
             classes.append("model-scores")
         else:
             classes.append("fallback")
+            if trained:
+                classes.append("fallback-although-all-folds-trained")
             require(len(set(bool(d) for d in descs)) == 1, "fallback-direction", f"descs {descs}")
             d = bool(descs[0])
             require(any(pf[(as_feature, d)] == F for pf in per_fold_best), "fallback-not-best",
